@@ -10,6 +10,11 @@ type chanCore struct {
 	buf     []vclock // clocks of buffered sends (values live in the typed queue)
 	recvVCs []vclock // clocks of completed receives, for the k-th recv -> (k+cap)-th send edge
 	closeVC vclock
+	// causal-history hashing
+	ident  uint64
+	bufH   []uint64 // per buffered item: hash of (sender history, value)
+	recvH  []uint64
+	closeH uint64
 }
 
 // selCase is one channel operation of a pending send/recv/select.
@@ -21,6 +26,7 @@ type selCase struct {
 	take      func(ok bool)       // receive from queue (ok) or closed (zero value)
 	handoff   func(recv *selCase) // rendezvous: pass the value to the receiver's case
 	accept    any                 // receiver side of a rendezvous: a func(T)
+	vhash     func() uint64       // send cases: hash of the value
 }
 
 // Chan replaces `chan T` in rewritten code.
@@ -39,13 +45,20 @@ func NewChan[T any](n int) *Chan[T] {
 		return &Chan[T]{native: make(chan T, n)}
 	}
 	chanSeq++
-	return &Chan[T]{core: &chanCore{cap: n, name: fmt.Sprintf("chan#%d(cap %d)", len(e.Trace), n)}}
+	core := &chanCore{cap: n, name: fmt.Sprintf("chan#%d(cap %d)", len(e.Trace), n)}
+	if g := e.cur; g != nil {
+		g.chans++
+		core.ident = mix(g.ident, 3001, g.chans)
+	}
+	e.chansAll = append(e.chansAll, core)
+	return &Chan[T]{core: core}
 }
 
 func (c *Chan[T]) sendCase(v T) *selCase {
 	sc := &selCase{ch: c.core, send: true}
 	sc.put = func() { c.q = append(c.q, v) }
 	sc.handoff = func(recv *selCase) { recv.accept.(func(T))(v) }
+	sc.vhash = func() uint64 { return hashValue(v) }
 	return sc
 }
 
@@ -237,4 +250,15 @@ func Select(cases ...Case) int {
 	}
 	e.park(e.cur, op)
 	return op.chosen
+}
+
+// hashValue hashes a transmitted value by its printed form (values here are strings, small
+// structs, errors and struct{}).
+func hashValue(v any) uint64 {
+	var h uint64 = 14695981039346656037
+	for _, b := range []byte(fmt.Sprintf("%T|%+v", v, v)) {
+		h ^= uint64(b)
+		h *= 0x100000001b3
+	}
+	return h
 }
